@@ -17,7 +17,7 @@ open Dulwich Dulwich.Gen.Refs
 /-- compile-time byte-string literal: `b!"refs/heads/a"` is the list of its UTF-8 bytes -/
 scoped macro "b!" s:str : term => do
   let bs := s.getString.toUTF8.toList
-  let elems ← bs.mapM (fun b => `(($(Lean.quote b.toNat) : UInt8)))
+  let elems ← bs.toArray.mapM (fun b => `(($(Lean.quote b.toNat) : UInt8)))
   `(([$elems,*] : List UInt8))
 
 /-- Python `pat in s` for bytes -/
